@@ -457,7 +457,7 @@ pub fn run(rec: &mut Rec, rng: &mut Rng, thorough: bool) {
 /// ones mixed: what each delivered request shows is `Headers::try_from` of ITS OWN block (the rules start from
 /// default `Headers` for every request; nothing of an earlier head, accepted or rejected, is carried over), and a
 /// head is rejected exactly when its block is.
-pub fn blocks_on_one_connection(rec: &mut Rec, rng: &mut Rng, blocks: &[Vec<Vec<u8>>], descr: &str) {
+pub fn blocks_on_one_connection(rec: &mut Rec, _rng: &mut Rng, blocks: &[Vec<Vec<u8>>], descr: &str) {
     use crate::conn::ConnDriver;
     rec.case(descr);
     let mut d = ConnDriver::new(rec, 1 << 20);
